@@ -169,20 +169,23 @@ func verifSameMsg(a, b *dns.Msg) {
 // VerifC12HashPrefix: with the hash-prefix result cache enabled, a requester gets the
 // same verdict and the same filtered message as without it, whoever populated the cache.
 //
-//verif:harness name=H12a-hashprefix tier=quick,thorough bounds="two requesters for the same host/qtype (A, AAAA, HTTPS, TXT; host listed or not) with independent symbolic ID, RD/CD, OPT presence / size / DO, client address and with different profiles (blocking mode null-IP vs NXDOMAIN, filtered-response TTL 10 s vs 300 s); replacement by IP or by host name; second requester compared with a cache-less twin" reach=hit-compared,matched,not-matched maxpaths=200000
+//verif:harness name=H12a-hashprefix tier=quick,thorough bounds="two requesters for the same host with independently chosen qtypes (A, AAAA, HTTPS, TXT; host listed or not) with independent symbolic ID, RD/CD, OPT presence / size / DO, client address and with different profiles (blocking mode null-IP vs NXDOMAIN, filtered-response TTL 10 s vs 300 s); replacement by IP or by host name; second requester compared with a cache-less twin" reach=hit-compared,matched,not-matched maxpaths=200000
 //verif:assume the result cache is a stub honouring the agdcache contract; SHA-256 computed for the concrete host names
 func VerifC12HashPrefix() {
 	hashes, err := NewStorage("bad.example\n# comment\nother.example\n")
 	verifAssume(err == nil)
 	repFQDN := verifChoice(2) == 1
 	host := []string{"bad.example", "sub.bad.example", "good.example"}[verifChoice(3)]
-	qt := []uint16{dns.TypeA, dns.TypeAAAA, dns.TypeHTTPS, dns.TypeTXT}[verifChoice(4)]
+	qts := []uint16{dns.TypeA, dns.TypeAAAA, dns.TypeHTTPS, dns.TypeTXT}
+	qt := qts[verifChoice(4)]
+	// the request that populated the cache may have asked for another type
+	qt0 := qts[verifChoice(4)]
 	c0 := verifConstructor(&dnsmsg.BlockingModeNullIP{}, 10*time.Second)
 	c1 := verifConstructor(&dnsmsg.BlockingModeNXDOMAIN{}, 300*time.Second)
 	ctx := context.Background()
 
 	cached := verifFilter(hashes, true, repFQDN)
-	r0 := verifRequester(host, qt, c0)
+	r0 := verifRequester(host, qt0, c0)
 	_, err0 := cached.FilterRequest(ctx, r0)
 	verifAssert("no-error", err0 == nil)
 	r1 := verifRequester(host, qt, c1)
